@@ -134,6 +134,7 @@ def clear_graph_harness(ctx: Ctx):
         return frame_clauses() + [("own_cleared", z3.And(ctx.heap[("Tensor", "_creator")][me.ref] == 0, ctx.heap[("Tensor", "_ops_empty")][me.ref], ctx.heap[("Tensor", "_view_children_empty")][me.ref]))]
 
     spec = LoopSpec(invariant=inv, modifies=("var",), heap_modifies=[])
+    spec.expect_iterable = (n0, lambda j: vars0[j])  # the recursion must reach every input of the old creator
     cfg.loop_specs[(f"{TB}:Tensor.clear_graph", 0)] = spec
     try:
         interp.call(real, [me], {})
